@@ -644,13 +644,24 @@ func insertSeparatorsAt(integer string, sep rune, positions []int, fromRight boo
 
 	s := integer
 	chunks := make([]string, 0, len(positions)+1)
+	done := 0
 
 	for i := range positions {
 
+		// Positions count digits from the right-hand end of
+		// the integer part or from the left-hand end of the
+		// fractional part. A separator is only inserted where
+		// there is a digit on both sides of it.
 		n := positions[i]
 		if fromRight {
 			n = utf8.RuneCountInString(s) - n
+		} else {
+			n -= done
 		}
+		if n <= 0 || n >= utf8.RuneCountInString(s) {
+			continue
+		}
+		done += n
 
 		pos := 0
 		for n > 0 {
